@@ -209,10 +209,22 @@ func storeSlashingProtection(ctx context.Context, protection *SlashingProtection
 		}
 		var key [48]byte
 		copy(key[:], bytes)
-		keyProtection := &rules.SlashingProtection{
-			HighestAttestedSourceEpoch: -1,
-			HighestAttestedTargetEpoch: -1,
-			HighestProposedSlot:        -1,
+		// Start from what we already hold for the key, be it from an earlier entry in the file or from
+		// the existing database, and only ever raise individual values.  This ensures that an import
+		// can never lower (or drop) any of the protection values, whatever mix of older and newer
+		// data the file contains.
+		keyProtection, exists := protectionMap[key]
+		if !exists {
+			keyProtection = &rules.SlashingProtection{
+				HighestAttestedSourceEpoch: -1,
+				HighestAttestedTargetEpoch: -1,
+				HighestProposedSlot:        -1,
+			}
+			if existingKeyProtection, exists := existingProtection[key]; exists {
+				keyProtection.HighestAttestedSourceEpoch = existingKeyProtection.HighestAttestedSourceEpoch
+				keyProtection.HighestAttestedTargetEpoch = existingKeyProtection.HighestAttestedTargetEpoch
+				keyProtection.HighestProposedSlot = existingKeyProtection.HighestProposedSlot
+			}
 		}
 		// We take the absolute highest source epoch and target epoch across all provided attestations.
 		for _, attestation := range protection.Data[i].SignedAttestations {
@@ -220,12 +232,18 @@ func storeSlashingProtection(ctx context.Context, protection *SlashingProtection
 			if err != nil {
 				return errors.Wrap(err, "invalid attestation source epoch")
 			}
+			if sourceEpoch < 0 {
+				return errors.New("negative attestation source epoch")
+			}
 			if sourceEpoch > keyProtection.HighestAttestedSourceEpoch {
 				keyProtection.HighestAttestedSourceEpoch = sourceEpoch
 			}
 			targetEpoch, err := strconv.ParseInt(attestation.TargetEpoch, 10, 64)
 			if err != nil {
 				return errors.Wrap(err, "invalid attestation target epoch")
+			}
+			if targetEpoch < 0 {
+				return errors.New("negative attestation target epoch")
 			}
 			if targetEpoch > keyProtection.HighestAttestedTargetEpoch {
 				keyProtection.HighestAttestedTargetEpoch = targetEpoch
@@ -237,24 +255,14 @@ func storeSlashingProtection(ctx context.Context, protection *SlashingProtection
 			if err != nil {
 				return errors.Wrap(err, "invalid proposal slot")
 			}
+			if slot < 0 {
+				return errors.New("negative proposal slot")
+			}
 			if slot > keyProtection.HighestProposedSlot {
 				keyProtection.HighestProposedSlot = slot
 			}
 		}
-
-		existingKeyProtection, exists := existingProtection[key]
-		if exists {
-			// We already have an entry; only add this if it contains newer data.
-			if existingKeyProtection.HighestAttestedSourceEpoch <= keyProtection.HighestAttestedSourceEpoch &&
-				existingKeyProtection.HighestAttestedTargetEpoch <= keyProtection.HighestAttestedTargetEpoch &&
-				existingKeyProtection.HighestProposedSlot <= keyProtection.HighestProposedSlot {
-				protectionMap[key] = keyProtection
-			} else {
-				fmt.Fprintf(os.Stdout, "Existing entry for public key %#x contains newer data; not importing\n", key)
-			}
-		} else {
-			protectionMap[key] = keyProtection
-		}
+		protectionMap[key] = keyProtection
 	}
 	if err := rulesSvc.ImportSlashingProtection(ctx, protectionMap); err != nil {
 		return errors.Wrap(err, "failed to obtain slashing protection")
